@@ -107,7 +107,14 @@ func vhAgreement(authHalf bool) {
 // went away, offered nothing, or the rounds ran out.
 //
 //verif:unwind 6
-func VH_C10_ServerRounds() { vhServerAuth(true) }
+func VH_C10_ServerRounds() {
+	vhServerAuth(vhCheckServerRounds)
+	if vhNever {
+		vhCheckServerRounds(nil, nil, nil, nil) // (makes the checker's cover labels part of this harness's vacuity guard)
+	}
+}
+
+var vhNever bool
 
 func vhCheckServerRounds(cfg *SecurityConfig, io_ *vhIO, asked []int, err error) {
 	ran := 0
